@@ -42,10 +42,11 @@ WORKER = os.path.join(VERIF, "harness", "c15_worker.py")
 INVARIANTS = ["TypeOK", "LastDefinerWins", "NothingLostNothingInvented", "RepetitionKeepsLast"]
 
 TIERS = {
-    "quick": dict(shapes=["none", "gv", "sv", "gv+gw"], maxlen=3, nseeds=4, slices=3, e3_every=4, scope_instance_every=6),
-    "thorough": dict(shapes=["none", "gv", "sv", "gv+sv", "gw", "gv+gw", "sv+gw"], maxlen=3, nseeds=8, slices=2, e3_every=3, scope_instance_every=2),
+    "quick": dict(shapes=["none", "gv", "sv", "gv+gw", "sw"], maxlen=3, nseeds=4, slices=4, e3_every=4, scope_instance_every=6),
+    "thorough": dict(shapes=["none", "gv", "sv", "gv+sv", "gw", "gv+gw", "sw", "sv+sw"], maxlen=3, nseeds=8, slices=2, e3_every=3, scope_instance_every=2),
 }
-KEYS_OF = {"none": [], "gv": ["gv"], "sv": ["sv"], "gv+sv": ["gv", "sv"], "gw": ["gw"], "gv+gw": ["gv", "gw"], "sv+gw": ["sv", "gw"]}
+KEYS_OF = {"none": [], "gv": ["gv"], "sv": ["sv"], "gv+sv": ["gv", "sv"], "gw": ["gw"], "gv+gw": ["gv", "gw"], "sv+gw": ["sv", "gw"],
+           "sw": ["sw"], "sv+sw": ["sv", "sw"]}
 
 
 def hash_seeds(n):
@@ -101,8 +102,10 @@ def var_file_doc(f, shape):
             doc["global"]["v"] = "f%d.gv" % f
         elif k == "gw":
             doc["global"]["w"] = "f%d.gw" % f
-        else:
+        elif k == "sv":
             doc.setdefault("stages", {}).setdefault(0, {})["v"] = "f%d.sv" % f
+        else:
+            doc.setdefault("stages", {}).setdefault(0, {})["w"] = "f%d.sw" % f
     return doc
 
 
@@ -138,7 +141,7 @@ RICH_DSL = {
     "entrypoint": {"entry-instance": "main", "execute": [{"target": "<entry-instance>", "args": {"foo": "world", "bar": "moon"}}]},
     "workflows": [
         {"signature": {"name": "main", "parameters": [{"name": "foo"}, {"name": "bar", "default": "b"}]},
-         "steps": {"first": "inner", "second": "inner", "greetings": "echo", "zz": "echo"},
+         "steps": {"first": "inner", "second": "inner", "greetings": "echo", "zz": "shout"},
          "execute": [{"target": "<first>", "args": {"foo": "%(foo)s"}},
                      {"target": "<second>", "args": {"foo": "%(bar)s"}},
                      {"target": "<greetings>", "args": {"message": "top", "other": "<first/greetings>/out.txt:ref"}},
@@ -154,6 +157,12 @@ RICH_DSL = {
                                                                                           "B_VAR": "b", "C_VAR": "c"}}]},
          "command": {"environment": "%(environment)s", "executable": "echo", "arguments": "%(message)s %(other)s"},
          "variables": {"k1": "v1", "k2": "v2"}},
+        # the environment of this template EQUALS the one of `echo` as a dictionary, its keys are listed in another order
+        {"signature": {"name": "shout", "parameters": [{"name": "message"}, {"name": "other", "default": "another default"},
+                                                       {"name": "environment", "default": {"C_VAR": "c", "B_VAR": "b", "AN_ENV_VAR": "ITS_VALUE",
+                                                                                           "DEFAULTS": "PATH:LD_LIBRARY_PATH"}}]},
+         "command": {"environment": "%(environment)s", "executable": "printf", "arguments": "%(message)s %(other)s"},
+         "variables": {"k3": "v3", "k1": "v1"}},
     ]}
 
 
@@ -195,11 +204,23 @@ def mapping_paths(doc, path=()):
 
 def env_family():
     """[(id, mapping path, key order)]: every mapping of ENV_PACKAGE x its key orders (all of them for small mappings)"""
+    return key_order_family(ENV_PACKAGE, "env", lambda path: True)
+
+
+def dsl_family():
+    """the same for every mapping inside the component templates of RICH_DSL (signatures, parameter defaults such as the
+    `environment` dictionaries, command, variables)"""
+    return key_order_family(RICH_DSL, "dsl", lambda path: len(path) >= 2 and path[0] == "components")
+
+
+def key_order_family(document, prefix, wanted):
     import itertools
     fam = []
     rng = random.Random(verif_seed() * 104729 + 7)
-    for path in mapping_paths(ENV_PACKAGE):
-        m = ENV_PACKAGE
+    for path in mapping_paths(document):
+        if not wanted(path):
+            continue
+        m = document
         for k in path:
             m = m[k]
         keys = list(m)
@@ -214,7 +235,7 @@ def env_family():
                     orders.append(tuple(o))
         name = ".".join(str(k) for k in path) or "document"
         for n, o in enumerate(orders):
-            fam.append(("env:%s:%d" % (name, n), path, list(o)))
+            fam.append(("%s:%s:%d" % (prefix, name, n), path, list(o)))
     return fam
 
 
@@ -238,7 +259,9 @@ def with_key_order(doc, path, order, rng):
 def env_cases(vdir):
     return [{"id": eid, "kind": "envfamily", "package": os.path.join(vdir, "envfam", "p%d.package" % n), "platforms": [None, "hpc"],
              "names": ENV_NAMES, "nodes": ["stage0.c0", "stage0.c1", "stage1.c2", "stage1.c3"]}
-            for n, (eid, path, order) in enumerate(env_family())]
+            for n, (eid, path, order) in enumerate(env_family())] + \
+           [{"id": eid, "kind": "envfamily", "dsl": True, "package": os.path.join(vdir, "dslfam", "p%d.package" % n)}
+            for n, (eid, path, order) in enumerate(dsl_family())]
 
 
 # ---- scoping family (spec/UserVarsScope.tla): component > stage > global, nothing leaks between the components of a stage
@@ -302,6 +325,8 @@ def write_variant(vdir, k, t):
              # only the named mapping changes its key order (so that a difference is attributed to it); documents with ALL
              # mappings shuffled per process are the rich packages above
              with_key_order(ENV_PACKAGE, path, order, None))
+    for n, (eid, path, order) in enumerate(dsl_family()):
+        dump(os.path.join(vdir, "dslfam", "p%d.package" % n, "conf", "dsl.yaml"), with_key_order(RICH_DSL, path, order, None))
 
 
 def var_path(vdir, f, shape):
@@ -398,14 +423,14 @@ def flatten_user(user):
         return {"?": user}
     g = user.get("global", {}) or {}
     s0 = (user.get("stages", {}) or {}).get("0", {}) or {}
-    return {"gv": g.get("v", "undefined"), "gw": g.get("w", "undefined"), "sv": s0.get("v", "undefined")}
+    return {"gv": g.get("v", "undefined"), "gw": g.get("w", "undefined"), "sv": s0.get("v", "undefined"), "sw": s0.get("w", "undefined")}
 
 
 ENTRY = {"e1": "init", "e1d": "init", "e2": "parametrize", "e2g": "parametrize", "e3": "experimentFromPackage"}
 
 
 def defined_keys(c):
-    return "+".join(k for k in ("gv", "sv", "gw") if c["expected"]["layered"][k] != "undefined") or "nothing"
+    return "+".join(k for k in ("gv", "sv", "gw", "sw") if c["expected"]["layered"][k] != "undefined") or "nothing"
 
 
 def judge(chk, cases, seeds, result, index=None):
@@ -563,9 +588,20 @@ def judge_env(chk, seeds, result):
     chain = ref["default"]["named"]["chain"]
     if not (isinstance(chain, dict) and "APP_BIN" in chain and "/launch/dir" in str(chain.get("TOOL"))):
         raise MachineryError("environment family lost its substance: %s" % chain)
+    judge_family(chk, seeds, result, fam, ref, "")
+    dfam = dsl_family()
+    dref = result[seeds[0]].get(dfam[0][0])
+    if dref is None or "exception" in dref or len(dref.get("environments", {})) < 1 or len(dref.get("components", {})) < 6:
+        raise MachineryError("DSL key-order family: reference case failed or lost its substance: %s" % str(dref)[:500])
+    judge_family(chk, seeds, result, dfam, dref, "dsl:")
+    chk.sample({"environment family": len(fam), "dsl family": len(dfam), "chain (default platform)": chain,
+                "dsl environments": dref["environments"]}, limit=6)
+
+
+def judge_family(chk, seeds, result, fam, ref, label):
     ref_text = json.dumps(ref, sort_keys=True)
     for (eid, path, order) in fam:
-        name = ".".join(str(k) for k in path) or "document"
+        name = label + (".".join(str(k) for k in path) or "document")
         chk.evaluated(("env", eid))
         for s in seeds:
             got = result[s].get(eid)
@@ -577,7 +613,6 @@ def judge_env(chk, seeds, result):
                               "keys of %s listed as %s (PYTHONHASHSEED=%s): resolved environments differ from those of the document as written at %s; e.g. %s" % (
                                   name, order, s, where, describe_diff(ref, got, where[:1])), {"envfamily": name, "seeds": seeds})
                 break
-    chk.sample({"environment family": len(fam), "chain (default platform)": chain}, limit=6)
 
 
 def describe_diff(a, b, paths):
@@ -668,6 +703,7 @@ def run(tier):
     judge_scope(chk, scope_cases, seeds, result)
     chk.cov["scope_family"] = len(scope_cases)
     chk.cov["env_family"] = len(env_family())
+    chk.cov["dsl_family"] = len(dsl_family())
     chk.cov["rule"] = ("user-variable family: every assignment of %d shapes to the files of the list x every list of length <= %d over the files (repetitions "
                        "included), each loaded through 2-3 entry points in %d processes (PYTHONHASHSEED %s), variants of the documents with shuffled "
                        "mapping keys, shuffled directory listings; rich packages: %d, all processes" % (
